@@ -118,6 +118,9 @@ func init() {
 				out = append(out, Instance{Scenario: "c02_resume", Params: mustJSON(ResumeParams{Backend: b}), Bound: 0, Shards: 2})
 			}
 			out = append(out, Instance{Scenario: "c02_readonly_dcp", Params: mustJSON(struct{}{}), Bound: 0, Note: "read-only mode through the real Dcp.Start(), also for a backend handed in with SetMetadata"})
+			out = append(out, Instance{Scenario: "c02_sessions", Params: mustJSON(SessionsParams{}), Bound: 0, Shards: 2, Note: "three sessions of one process with the store moving in between: events acknowledged and saved by each session (couchbase backend)"})
+			out = append(out, Instance{Scenario: "c02_sessions", Params: mustJSON(SessionsParams{Backend: "file"}), Bound: 0, Shards: 2, Note: "the same on the file backend, which rewrites its whole file on every save: what a session with a larger assignment stored for the other vBuckets survives the saves of a smaller one"})
+			out = append(out, Instance{Scenario: "c02_sessions", Params: mustJSON(SessionsParams{ReadOnly: true}), Bound: 0, Shards: 2, Note: "read-only mode: the checkpoints are advanced by their owners between the sessions; every load is a fresh read, for vBuckets that stay and for vBuckets that are gained"})
 			out = append(out, Instance{Scenario: "c02_rebalance", Params: mustJSON(struct{}{}), Bound: 0, Shards: 4, Note: "second and third session of one process after real rebalances that shrink / grow / shift the assignment"})
 			out = append(out, Instance{Scenario: "c02_loadfault", Params: mustJSON(struct{}{}), Bound: 0, Note: "a checkpoint lookup answered with an error other than key-not-found: fail fast or resume exactly, never from zero"})
 			for _, b := range []string{"couchbase", "file", "custom"} {
@@ -636,4 +639,192 @@ func init() {
 			vrt.SetOutcome(desc)
 		}}
 	}
+}
+
+// c02_sessions: "each assigned vBucket is requested with exactly what is persisted for it" in the second and
+// third session of ONE process (real Rebalance() calls between them, dynamic membership) while the store
+// MOVES between the sessions:
+//   - writable couchbase / file backend: every session delivers one more event per assigned vBucket, the
+//     consumer acknowledges, Save() - the reference follows; the file backend rewrites its whole file on every
+//     save, so what earlier sessions (larger assignment) stored for the other vBuckets must survive;
+//   - read-only mode: the checkpoints are advanced behind the library's back (by their owners) between the
+//     sessions - loads are fresh reads of the backend, for vBuckets that stay and for vBuckets that are gained.
+type SessionsParams struct {
+	Backend  string `json:"backend"` // "" (couchbase) | file
+	ReadOnly bool   `json:"read_only"`
+	// Flushed (read-only): before the first rebalance the store shows, for one chosen vBucket, a checkpoint BEYOND
+	// the vBucket's high seqno (bucket flushed / recreated): the session that is assigned this vBucket terminates
+	Flushed bool `json:"flushed"`
+}
+
+func init() {
+	scenarios["c02_sessions"] = func(raw json.RawMessage) *vrt.Scenario {
+		var p SessionsParams
+		_ = json.Unmarshal(raw, &p)
+		return &vrt.Scenario{Name: "c02_sessions", FreeChoices: true, NoTimerAlt: true, MaxSteps: 400000, Main: func() { sessionsMain(p) },
+			Classify: func(r *vrt.Result) []string {
+				expect := strings.Contains(r.Outcome, "MUST-TERMINATE")
+				if r.Status == vrt.StatusCrash && expect {
+					r.Failures = nil
+					return nil
+				}
+				if r.Status != vrt.StatusOK {
+					m := "execution ended with status " + r.Status.String()
+					if r.Crash != nil {
+						m += ": panic in " + r.Crash.Thread + ": " + r.Crash.Value
+					}
+					return []string{m}
+				}
+				if expect {
+					return []string{"the stored checkpoint of an assigned vBucket lies beyond its high seqno, but the session ran: " + r.Outcome}
+				}
+				return nil
+			}}
+	}
+}
+
+func sessionsMain(p SessionsParams) {
+	resetGlobals()
+	const nvb = 4
+	o := EnvOpts{Vbs: nvb, CheckpointType: "manual", MembershipType: "dynamic", AutoAck: true, ReadOnly: p.ReadOnly}
+	if p.Backend == "file" {
+		f, _ := os.CreateTemp("", "ckpt*.json")
+		o.Metadata, o.FileName = "file", f.Name()
+		f.Close()
+		defer os.Remove(o.FileName)
+	}
+	c := NewCluster(&o)
+	stored := map[uint16]c02Tuple{}
+	next := map[uint16]uint64{}
+	writeFile := func() {
+		m := map[uint16]*models.CheckpointDocument{}
+		for vb, t := range stored {
+			m[vb] = &models.CheckpointDocument{Checkpoint: &models.CheckpointDocumentCheckpoint{VbUUID: t.uuid, SeqNo: t.seq, Snapshot: &models.CheckpointDocumentSnapshot{StartSeqNo: t.s0, EndSeqNo: t.s1}}, BucketUUID: "uuid-" + srcBucket}
+		}
+		b, _ := json.Marshal(m)
+		_ = os.WriteFile(o.FileName, b, 0o644)
+	}
+	seed := func(vb uint16) {
+		t := stored[vb]
+		if p.Backend != "file" {
+			seedCheckpoint(c, srcBucket, "g", vb, t.uuid, t.seq, t.s0, t.s1)
+		}
+	}
+	for vb := uint16(0); vb < nvb; vb++ {
+		uuid := uint64(c.Vb[vb].Failover[0].VbUUID)
+		c.Append(vb, marker(1, 10+uint64(vb)))
+		for s := uint64(1); s <= 10+uint64(vb); s++ {
+			c.Append(vb, mut(s, fmt.Sprintf("k%d-%d", vb, s)))
+		}
+		stored[vb] = c02Tuple{uuid: uuid, seq: 10 + uint64(vb), s0: 1, s1: 10 + uint64(vb)}
+		next[vb] = 11 + uint64(vb)
+		seed(vb)
+	}
+	if p.Backend == "file" {
+		writeFile()
+	}
+	e := NewEnv(c, o)
+	nums := [][2]int{{1, 1}, {1, 2}, {2, 2}, {3, 4}}
+	cur := nums[vrt.Choose(len(nums), true, "first-numbering")]
+	publishInfo(e, cur[0], cur[1])
+	e.Bus.WaitAsync()
+	e.Stream.Open()
+	c.WaitIdle()
+	var hist []string
+	var t0 int64
+	flushed := -1
+	check := func() {
+		want := chunkOf(nvb, cur)
+		in := map[uint16]bool{}
+		for _, v := range want {
+			in[v] = true
+		}
+		last := map[uint16]*gocbcore.SimRequest{}
+		for _, r := range c.Requests {
+			if r.Kind == "openstream" && r.Issued >= t0 {
+				last[r.Vb] = r
+			}
+		}
+		for vb := uint16(0); vb < nvb; vb++ {
+			if !in[vb] {
+				continue
+			}
+			r := last[vb]
+			if r == nil {
+				vrt.Failf("after %v: assigned vb%d was not requested in this session", hist, vb)
+				continue
+			}
+			got := c02Tuple{uuid: r.Args[1], seq: r.Args[2], s0: r.Args[4], s1: r.Args[5]}
+			if got != stored[vb] {
+				vrt.Failf("after %v (member %d/%d): vb%d requested from %+v, persisted is %+v", hist, cur[0], cur[1], vb, got, stored[vb])
+			}
+		}
+	}
+	hist = append(hist, fmt.Sprintf("open(%d/%d)", cur[0], cur[1]))
+	check()
+	for i := 0; i < 2; i++ {
+		if p.ReadOnly {
+			// the owners of the vBuckets moved on meanwhile
+			for vb := uint16(0); vb < nvb; vb++ {
+				if int(vb) == flushed {
+					continue // nobody owns / advances it any more
+				}
+				t := stored[vb]
+				t.seq, t.s0, t.s1 = next[vb], next[vb], next[vb]
+				stored[vb] = t
+				c.Append(vb, marker(next[vb], next[vb]), mut(next[vb], fmt.Sprintf("k%d-%d", vb, next[vb])))
+				next[vb]++
+				seed(vb)
+			}
+			c.WaitIdle()
+			hist = append(hist, "store advanced by the owners")
+			if p.Flushed && i == 0 {
+				fvb := uint16(vrt.Choose(nvb, true, "flushed-vbucket"))
+				t := stored[fvb]
+				t.seq, t.s0, t.s1 = next[fvb]+50, next[fvb]+50, next[fvb]+50
+				stored[fvb] = t
+				seed(fvb)
+				flushed = int(fvb)
+				hist = append(hist, fmt.Sprintf("vb%d: stored checkpoint %d beyond its high seqno %d", fvb, t.seq, next[fvb]-1))
+			}
+		} else {
+			for _, vb := range chunkOf(nvb, cur) {
+				s := next[vb]
+				next[vb]++
+				c.Append(vb, marker(s, s), mut(s, fmt.Sprintf("k%d-%d", vb, s)))
+				t := stored[vb]
+				t.seq, t.s0, t.s1 = s, s, s
+				stored[vb] = t
+			}
+			c.WaitIdle()
+			vrt.Quiesce()
+			e.Stream.Save()
+			hist = append(hist, "event+ack+save")
+		}
+		cur = nums[vrt.Choose(len(nums), true, "next-numbering")]
+		if flushed >= 0 {
+			for _, v := range chunkOf(nvb, cur) {
+				if int(v) == flushed {
+					vrt.SetOutcome(fmt.Sprintf("%v then rebalance(%d/%d) MUST-TERMINATE", hist, cur[0], cur[1]))
+				}
+			}
+		}
+		publishInfo(e, cur[0], cur[1])
+		e.Bus.WaitAsync()
+		t0 = vrt.NowNanos()
+		e.Stream.Rebalance()
+		vrt.Sleep(2 * time.Second)
+		vrt.Quiesce()
+		c.WaitIdle()
+		hist = append(hist, fmt.Sprintf("rebalance(%d/%d)", cur[0], cur[1]))
+		check()
+	}
+	if flushed >= 0 {
+		for _, v := range chunkOf(nvb, cur) {
+			if int(v) == flushed {
+				return // outcome already says MUST-TERMINATE: the session ran although it had to terminate
+			}
+		}
+	}
+	vrt.SetOutcome(fmt.Sprint(hist))
 }
